@@ -401,6 +401,10 @@ fn history(ctx: &Ctx, rep: &mut Report, case_seed: u64, variant: u64, always_flu
 		Ok(d) => d,
 		Err(_) => return,
 	};
+	if always_flush {
+		pv::dbutil::wait_idle(&db, Duration::from_secs(30));
+	}
+	ctx.progress();
 	drop(db);
 	let mut o2 = opts.clone();
 	o2.with_background_thread = false;
